@@ -28,7 +28,11 @@ RULE = ("relgraph: relation-dense commands (3-7 mostly simple flags/one-value op
         "another argument, sometimes a subcommand level with subcommand_negates_reqs / args_conflicts_with_subcommands "
         "and a global argument) x argv that is repaired towards satisfying the relations (half) or a random subset "
         "(half), random spellings, override pairs in both orders; shared: the shared parser generator with "
-        "relations=0.5, groups=0.6; adversarial: relgraph commands with mutated argv and boundary tokens.  "
+        "relations=0.5, groups=0.6; adversarial: relgraph commands with mutated argv and boundary tokens; clauses3 "
+        "(directed, round 3): two disjoint groups one of which (multiple or not) conflicts with the other GROUP, an argument "
+        "carrying required_if_eq(_all) AND required_unless_present(_all) together, an Append option with 0-3 occurrences "
+        "that is the condition of required_if_eq / carries requires_if, lines with members of both groups / repeated "
+        "occurrences whose first value matches and last does not.  "
         "Non-trivial: the parse succeeded without ignore_errors and at some level a relation is live (a present "
         "argument declares or is named by a relation, an absent argument has a conditional rule whose trigger is "
         "present, a static requirement exists, or a group has a present member).  Distinct = distinct case text.")
@@ -56,10 +60,12 @@ TECHNIQUE = ("Coq proof about the executable model of Validator::validate and of
              "the validator for a declarative specification (any relation graph), lifted by induction over the "
              "subcommand recursion to EVERY level of the reported chain (frame lemmas for the token loop and the "
              "post-loop phases, C02's key-uniqueness invariant), one theorem per clause of the property text, the "
-             "converse (completeness) for conflicts and for statically required arguments, the two recorded findings as "
-             "boolean families of definitions with step-level theorems for Parser::remove_overrides / start_custom_arg "
+             "converse (completeness of the validator) for EVERY relation graph through the exact requirement set, a "
+             "dedicated traversal of the parser level (react / resolve_pending / token loop / env and default phases) that "
+             "carries the coherence of group entries -- a predicate not closed under entry removal -- outside the two "
+             "recorded finding families, given as boolean families of definitions, "
              "+ extracted-model/implementation correspondence + direct python oracle on every successful parse")
-LEVEL_TEXT = ("58 pinned machine-checked theorems (Coq 8.16, all closed under the global context, no standard-library axiom).  "
+LEVEL_TEXT = ("85 pinned machine-checked theorems (Coq 8.16, all closed under the global context, no standard-library axiom).  "
               "C03_parse_sound_tree / C03_parse_top_sound_tree: for every valid definition of the class plain (no short "
               "flag-subcommands) + no_ignore (no node sets ignore_errors; the class is proved to be inherited by every "
               "command the parser builds) and every argv, a successful parse reports -- up to the copy of global "
@@ -78,6 +84,23 @@ LEVEL_TEXT = ("58 pinned machine-checked theorems (Coq 8.16, all closed under th
               "validate = Ok <-> Relations); C03_required_set_exact (after the repair of Command::unroll_arg_requires, which "
               "no longer judges a conditional rule behind a requires chain against the root's values): the requirement "
               "set validate works from equals the specification's Required set, both inclusions, any graph.  "
+              "Round 3: C03_validate_iff -- for EVERY relation graph (requires/requires_if chains, required groups, group "
+              "requires, all conditional rule families) and every well-formed matcher validate = Ok <-> Relations, the two "
+              "non-relation checks (help-on-empty-argv, subcommand-required) set aside (C03_validate_complete, "
+              "C03_missing_required_complete, C03_no_false_missing, C03_validate_iff_members for RelationsM on coherent matchers; C03_validate_iff_invariant discharges the side conditions "
+              "on every state of the parser).  C03_parse_sound_members / C03_level_members / C03_level_coherent: outside the "
+              "two finding families (boolean group_safe on the built definition) every successful level ends with coherent "
+              "group entries (entry explicit <-> a member explicit) and satisfies RelationsM, the member-based reading of the "
+              "property; C03_parse_sound_along / C03_parse_top_sound_along / C03_level_chain_along: the chain theorems with "
+              "hypotheses only ALONG the reported chain (strict_chain_b: a level that recorded a subcommand does not ignore "
+              "errors; safe_chain_b: every level of the chain is group_safe) -- a sibling subcommand that was not reached "
+              "may set ignore_errors or lie in a family -- with members_chain (RelationsM at every level).  Explicit clauses: "
+              "a group's conflict with another GROUP reaches the members of both, multiple(true) included "
+              "(C03_clause_group_conflicts_group_members/_entry, C03_direct_conflicts_multiple_group); required_if_eq* and "
+              "required_unless_present* on one argument are a union (C03_clause_required_if_unless_union, "
+              "_if_despite_unless, _unless_despite_if, C03_conditional_union_exact: the validator's boolean IS that union); "
+              "Equals reads every stored occurrence (C03_clause_required_if_eq_any_occurrence, "
+              "C03_clause_requires_if_any_occurrence).  "
               "The model is tied to clap_builder by running the extracted model and the "
               "real crate on the same generated cases on every check, and an independent python oracle re-checks every "
               "successful parse of the implementation against the documented relation semantics.")
@@ -86,12 +109,13 @@ LEVEL_NOTE = ("Trusted: Coq kernel, extraction, OCaml driver, Rust harness, gene
               "(C03-override-names-group = boolean family f1_family of definitions); a group entry stays present after "
               "its last member was overridden (C03-stale-group-after-override = family f2_family); theorems "
               "C03_group_coherence_refuted_f1/_f2, C03_members_refuted_f1, C03_families_witnesses (each witness lies in "
-              "exactly its family and is produced by one call of remove_overrides).  Proved outside the families "
-              "(group_safe), step level only (_partial): remove_overrides touches no group entry and no other member "
-              "entry, start_custom_arg re-establishes coherence of every group.  NOT proved (differential + oracle): "
-              "coherence of group entries as an invariant of the whole parse (needed for the member-based reading "
-              "RelationsM at parse level), completeness of the validator beyond conflicts / static_only, commands with "
-              "short flag-subcommands, ignore_errors.")
+              "exactly its family and is produced by one call of remove_overrides).  Outside the families "
+              "(group_safe) coherence is now an invariant of the whole level (round 3, ParseProofs/RelationsLoop.v: "
+              "C03_loop_carries is the generic traversal, C03_occurrence_coherent the step).  NOT proved (differential + "
+              "oracle): definitions with short flag-subcommands (outside plain), results obtained while a level ON the "
+              "reported chain ignores errors, the two non-relation checks of validate (help-on-empty-argv, "
+              "subcommand-required) and the ArgumentConflict raised by react / args_conflicts_with_subcommands outside "
+              "validate (C10), the effect of the copy of global values on reported presence (C09).")
 
 EXPLICIT = ("cmdline", "env")
 KNOWN_F1 = "C03-override-names-group"
@@ -1046,6 +1070,105 @@ def gen_relgraph(rng, n, stats, per_cmd=4):
     return out[:n]
 
 
+# ------------------------------------------------------------------ round 3: directed generator for three clauses
+# (a) a group (multiple or not) that conflicts with another GROUP: members of both on the line;
+# (b) required_if_eq* AND required_unless_present* on ONE argument (a union: either family demands it);
+# (c) an Equals condition on an Append option that occurs several times (every occurrence counts, not the last).
+C3_LONGS = [b"aa", b"bb", b"cc", b"dd", b"ee", b"ff", b"oo", b"qq", b"xx", b"yy"]
+
+
+def gen_clauses3_cmd(rng, stats):
+    c = {"name": b"p", "args": [], "groups": [], "subs": [], "settings": [], "aliases": []}
+    flags = [{"id": b"f%d" % k, "long": C3_LONGS[k], "short": None, "flags": set(), "action": "settrue"} for k in range(rng.randint(4, 6))]
+    o = {"id": b"o", "long": b"oo", "short": None, "flags": set(), "action": "append" if chance(rng, 0.7) else "set"}
+    q = {"id": b"q", "long": b"qq", "short": None, "flags": set(), "action": pick(rng, ["append", "set"])}
+    if chance(rng, 0.15):
+        o["flags"].add("icase")
+    x = {"id": b"x", "long": b"xx", "short": None, "flags": set(), "action": "settrue"}
+    y = {"id": b"y", "long": b"yy", "short": None, "flags": set(), "action": "settrue"}
+    c["args"] = flags + [o, q, x, y]
+    fid = [f["id"] for f in flags]
+    # (a) two or three disjoint groups over the flags, one conflicting with another group
+    rng.shuffle(fid)
+    cut = rng.randint(1, 2)
+    g0 = {"id": b"g0", "args": fid[:cut]}
+    g1 = {"id": b"g1", "args": fid[cut:cut + rng.randint(1, 2)]}
+    for g in (g0, g1):
+        if chance(rng, 0.6):
+            g["multiple"] = True
+    g0["conflicts"] = [b"g1"] + ([pick(rng, [b"x", b"y"])] if chance(rng, 0.2) else [])
+    if chance(rng, 0.2):
+        g1["conflicts"] = [b"g0"]
+    if chance(rng, 0.2):
+        g1["requires"] = [b"y"]
+    c["groups"] = [g0, g1]
+    rest = [i for i in fid if i not in g0["args"] and i not in g1["args"]]
+    u = rest[0] if rest else b"y"
+    # (b) both families on x
+    r = rng.random()
+    if r < 0.6:
+        x["r_if"] = [(b"o", pick(rng, POOL))] + ([(b"q", pick(rng, POOL))] if chance(rng, 0.3) else [])
+    else:
+        x["r_if_all"] = [(b"o", pick(rng, POOL))] + ([(b"q", pick(rng, POOL))] if chance(rng, 0.5) else [])
+    r = rng.random()
+    if r < 0.6:
+        x["r_unless"] = [u] + ([b"y"] if chance(rng, 0.3) and u != b"y" else [])
+    elif r < 0.9:
+        x["r_unless_all"] = list(dict.fromkeys([u, b"y"]))
+    else:
+        x["r_unless"] = [u]
+        x["r_unless_all"] = list(dict.fromkeys([b"y", u]))
+    # (c) requires_if of the Append option itself, judged on all its occurrences
+    if chance(rng, 0.6):
+        o["requires_if"] = [(pick(rng, POOL), b"y")]
+    if chance(rng, 0.3):
+        q["requires"] = [b"o"]
+    stats["commands"] += 1
+    _count_cmd(c, stats)
+    return c, u
+
+
+def gen_clauses3_argv(rng, c, u, stats):
+    toks = []
+    g0, g1 = c["groups"]
+    byid = {a["id"]: a for a in c["args"]}
+
+    def flag(i):
+        return b"--" + byid[i]["long"]
+
+    items = []
+    plan = rng.random()
+    if plan < 0.45:      # members of both groups
+        items.append([flag(pick(rng, g0["args"]))])
+        items.append([flag(pick(rng, g1["args"]))])
+    elif plan < 0.8:
+        items.append([flag(pick(rng, pick(rng, [g0, g1])["args"]))])
+    for i in (u, b"y", b"x"):
+        if chance(rng, 0.4) and [flag(i)] not in items:
+            items.append([flag(i)])
+    for oid in (b"o", b"q"):
+        a = byid[oid]
+        k = pick(rng, [0, 1, 1, 2, 2, 3]) if a["action"] == "append" else pick(rng, [0, 1, 1])
+        for _ in range(k):
+            v = pick(rng, POOL + [b"V", b"x"])
+            items.append([flag(oid) + b"=" + v] if chance(rng, 0.3) else [flag(oid), v])
+    rng.shuffle(items)
+    for it in items:
+        toks += it
+    stats["argv_len"][str(min(len(toks), 12))] += 1
+    return [b"prog"] + toks
+
+
+def gen_clauses3(rng, n, stats, per_cmd=6):
+    out = []
+    while len(out) < n:
+        c, u = gen_clauses3_cmd(rng, stats)
+        for _ in range(per_cmd):
+            out.append(gen_cmd.case_sx(c, gen_clauses3_argv(rng, c, u, stats)))
+    stats["cases"] = n
+    return out[:n]
+
+
 R_BOUNDARY = [b"--", b"-", b"", b"--aa", b"--aa=", b"--aa=v", b"--a", b"--bb=w", b"-a", b"-ab", b"-abc", b"-bv", b"-b=v", b"-b",
               b"--cc", b"-c", b"sub", b"su", b"help", b"--help", b"-h", b"--xa", b"-x", b"-xy", b"v", b"w", b"1", b"V",
               b"--gg", b"--aa=V", b"-a=", b"--=", b"\xff", b"--aa=\xff"]
@@ -1097,6 +1220,7 @@ def new_runtime():
 
 
 SIZES = {"quick": (24000, 8000, 6000), "thorough": (240000, 80000, 60000)}
+SIZES_C3 = {"quick": 3000, "thorough": 30000}
 
 
 def streams(tier, rng):
@@ -1113,4 +1237,8 @@ def streams(tier, rng):
     cases = gen_adversarial(rng, n_adv, st)
     d = {"generated": st, "runtime": new_runtime()}
     out.append(Stream("adversarial", cases, oracle=make_oracle(d), area="parse", project=project, nontrivial=nontrivial, describe=d))
+    st = new_stats()
+    cases = gen_clauses3(rng, SIZES_C3.get(tier, SIZES_C3["quick"]), st)
+    d = {"generated": st, "runtime": new_runtime()}
+    out.append(Stream("clauses3", cases, oracle=make_oracle(d), area="parse", project=project, nontrivial=nontrivial, describe=d))
     return out
